@@ -147,6 +147,25 @@ def c14(ctx):
                                 "returned": ret})
                 lines.append(f"visit {kind} {stop if stop is not None else '-'} {shape_wire(s)}")
                 meta.append((s, kind, stop, trace, ret == STOP))
+        # traversals started at a non-root node cover exactly its sub-tree, depths from 0
+        if len(ids) <= 5:
+            nodes = {}
+            root = build(s, nodes)
+
+            def subshape(t, i):
+                if t is None:
+                    return None
+                if t[0] == i:
+                    return t
+                return subshape(t[1], i) or subshape(t[2], i)
+
+            for i in ids[1:]:
+                for kind, meth in (("pre", "visit_preorder"), ("in", "visit_inorder"), ("post", "visit_postorder")):
+                    trace = []
+                    getattr(nodes[i], meth)(lambda node, depth, data, _t=trace: _t.append((int(node.id), depth)))
+                    if trace != order(subshape(s, i), kind):
+                        bad.append({"shape": shape_wire(s), "order": kind, "receiver": i, "callbacks": trace,
+                                    "expected": order(subshape(s, i), kind)})
         # queries
         nodes = {}
         root = build(s, nodes)
@@ -249,6 +268,7 @@ def c14(ctx):
     # expression-level listings
     rng = random.Random(ctx.seed + 5)
     nexpr = 0
+    flines, fmeta = [], []
     for _ in range(300 if quick else 5000):
         t = gen.rand_tree(rng, rng.choice([2, 3, 4]), allow_eq=rng.random() < 0.2)
         py = core.tuple_to_py(t)
@@ -271,9 +291,60 @@ def c14(ctx):
                 bad.append({"tree": core.tuple_str(t), "query": "find_type " + cls.__name__})
         if py.find_id("no-such-id") is not None:
             bad.append({"tree": core.tuple_str(t), "query": "find_id missing"})
-    ctx.coverage["evaluations"] += len(lines) + nexpr
+        # the same queries asked of EVERY node (not only the root): they range over the receiver's
+        # own sub-tree; ids outside it are not found; with duplicate ids the first in-order wins
+        if rng.random() < 0.5 and isinstance(py, X.BinaryExpression):
+            py.right.id = py.left.id  # duplicate ids exist in real trees (clone() copies them)
+
+        def links_inorder(n):
+            return [] if n is None else links_inorder(n.left) + [n] + links_inorder(n.right)
+
+        want_in = links_inorder(py)
+        all_ids = list(dict.fromkeys(n.id for n in want_in))
+        lab = {i: k + 1 for k, i in enumerate(all_ids)}
+
+        def lshape(n):
+            return None if n is None else (lab[n.id], lshape(n.left), lshape(n.right))
+
+        for recv in want_in[:: 1 if len(want_in) < 8 else 2]:
+            rs = shape_wire(lshape(recv))
+            sub_l = links_inorder(recv)
+            for i in all_ids[:: max(1, len(all_ids) // 4)] + ["absent"]:
+                f = recv.find_id(i)
+                idx = next((k for k, x in enumerate(sub_l) if x is f), None) if f is not None else None
+                flines.append(f"findid {lab.get(i, 999)} {rs}")
+                fmeta.append((core.tuple_str(t), str(recv), i, idx, [lab[x.id] for x in recv.to_list("inorder")]))
+        for recv in want_in:
+            sub = links_inorder(recv)
+            if [id(x) for x in recv.to_list("inorder")] != [id(x) for x in sub]:
+                bad.append({"tree": core.tuple_str(t), "query": "to_list on a sub-node", "receiver": str(recv)})
+                break
+            stop = False
+            for i in all_ids:
+                want = next((x for x in sub if x.id == i), None)
+                if recv.find_id(i) is not want:
+                    bad.append({"tree": core.tuple_str(t), "query": "find_id on a sub-node", "receiver": str(recv),
+                                "id_inside_receiver": want is not None})
+                    stop = True
+                    break
+            if stop:
+                break
+            got = recv.find_type(X.VariableExpression)
+            if [id(x) for x in got] != [id(x) for x in sub if isinstance(x, X.VariableExpression)]:
+                bad.append({"tree": core.tuple_str(t), "query": "find_type on a sub-node", "receiver": str(recv)})
+                break
+    # find_id / to_list of the real expression classes vs the model's findId / toList
+    for (tt, rv, i, idx, lst), a in zip(fmeta, drv.ask(flines)):
+        toks = a.split()
+        m_idx = None if toks[1] == "none" else int(toks[1])
+        m_lst = [int(x) for x in toks[3:]]
+        if m_idx != idx or m_lst != lst:
+            diffs.append({"tree": tt, "receiver": rv, "id": str(i), "impl_inorder_index": idx, "model": a,
+                          "impl_list": lst, "query": "find_id/to_list"})
+    ctx.notes["find_id_correspondence"] = len(flines)
+    ctx.coverage["evaluations"] += len(lines) + nexpr + len(flines)
     ctx.coverage["distinct_nontrivial"] += sum(1 for s in shs if len(ids_of(s)) >= 3)
-    ctx.coverage["traces_validated_against_impl"] += len(lines)
+    ctx.coverage["traces_validated_against_impl"] += len(lines) + len(flines)
     ctx.coverage["exhaustive"] = True
     ctx.notes["generator"] = {"shapes": len(shs), "visits": len(lines), "expression_trees": nexpr}
     for s in shs[:: max(1, len(shs) // 6)][:6]:
@@ -297,6 +368,29 @@ def link_problems(cells, root_id):
     if cells[root_id][2] is not None:
         probs.append("root has a parent")
     return probs
+
+
+def _is_full(s):
+    if s is None:
+        return True
+    if (s[1] is None) != (s[2] is None):
+        return False
+    return _is_full(s[1]) and _is_full(s[2])
+
+
+def _build_expr(s, opmap, nodes):
+    """a real expression tree of the given full shape: inner nodes + or *, leaves variables"""
+    if s[1] is None:
+        n = X.VariableExpression("abcdefghijk"[s[0] % 11])
+    else:
+        cls = X.AddExpression if opmap[s[0]] == "add" else X.MultiplyExpression
+        n = cls(_build_expr(s[1], opmap, nodes), _build_expr(s[2], opmap, nodes))
+    nodes[s[0]] = n
+    return n
+
+
+def _links_inorder(n):
+    return [] if n is None else _links_inorder(n.left) + [n] + _links_inorder(n.right)
 
 
 def c15(ctx):
@@ -365,11 +459,72 @@ def c15(ctx):
         if mshape != after_shape or mcells != cells:
             diffs.append({"shape": shape_wire(s), "node": i, "impl_shape": shape_wire(after_shape),
                           "model_shape": shape_wire(mshape), "impl_cells": cells, "model_cells": mcells})
-    ctx.coverage["evaluations"] += len(lines)
+    # the associative rule IS a rotation at every position (anchor associative_swap.py): all full
+    # binary expression shapes (every node has 0 or 2 children) up to 9 (quick) / 11 (thorough)
+    # nodes, all-'+', all-'*' and mixed operators; the rule applied at every node it accepts, on a
+    # fresh tree each time; the object graph after the rule compared with the functional rotation
+    # of the model and judged by the same oracle (in-order objects unchanged, links consistent)
+    from mathy_core.rules import AssociativeSwapRule
+    rng = random.Random(ctx.seed * 11 + 15)
+    full = [s for s in all_shapes(9 if quick else 11) if _is_full(s) and len(ids_of(s)) >= 5]
+    rule = AssociativeSwapRule()
+    elines, emeta = [], []
+    n_rule = 0
+    for s in full:
+        for ops in ("add", "mul", "mix"):
+            opmap = {i: ("add" if ops == "add" else "mul" if ops == "mul" else rng.choice(["add", "add", "mul"]))
+                     for i in ids_of(s)}
+            for i in ids_of(s)[1:]:
+                nodes = {}
+                root = _build_expr(s, opmap, nodes)
+                n = nodes[i]
+                if not rule.can_apply_to(n):
+                    continue
+                n_rule += 1
+                before = _links_inorder(root)
+                gp = n.parent.parent
+                try:
+                    res = rule.apply_to(n).result
+                except Exception as e:  # noqa
+                    bad.append({"shape": shape_wire(s), "node": i, "ops": ops, "via": "AssociativeSwapRule",
+                                "problems": ["apply_to raised " + type(e).__name__]})
+                    continue
+                new_root = n
+                while new_root.parent is not None:
+                    new_root = new_root.parent
+                after = _links_inorder(new_root)
+                probs = []
+                if res is not n:
+                    probs.append("result is not the rotated node")
+                if [id(x) for x in after] != [id(x) for x in before]:
+                    probs.append("in-order sequence of the node objects changed: %s -> %s" % (
+                        [x.id for x in before], [x.id for x in after]))
+                probs += [str(x) for x in core.audit_links(new_root)]
+                if n.parent is not gp:
+                    probs.append("rotated node does not hang under the old grandparent")
+                if gp is not None and (gp.left is n) == (gp.right is n):
+                    probs.append("grandparent does not point at the rotated node exactly once")
+                if probs:
+                    bad.append({"shape": shape_wire(s), "node": i, "ops": ops, "via": "AssociativeSwapRule",
+                                "expression": str(_build_expr(s, opmap, {})), "problems": probs})
+                rev = {id(o): k for k, o in nodes.items()}
+                try:
+                    ashape = shape_of(new_root, rev)
+                except KeyError:
+                    ashape = None
+                elines.append(f"rotate {i} {shape_wire(s)}")
+                emeta.append((s, i, ops, ashape))
+    for (s, i, ops, ashape), a in zip(emeta, drv.ask(elines)):
+        mshape, _ = wire_shape(a.split(), 1)
+        if mshape != ashape:
+            diffs.append({"shape": shape_wire(s), "node": i, "ops": ops, "via": "AssociativeSwapRule",
+                          "impl_shape": shape_wire(ashape) if ashape else None, "model_shape": shape_wire(mshape)})
+    ctx.notes["rule_rotations"] = n_rule
+    ctx.coverage["evaluations"] += len(lines) + n_rule
     ctx.coverage["distinct_nontrivial"] += sum(len(ids_of(s)) for s in shs if len(ids_of(s)) >= 3)
-    ctx.coverage["traces_validated_against_impl"] += len(lines)
+    ctx.coverage["traces_validated_against_impl"] += len(lines) + len(elines)
     ctx.coverage["exhaustive"] = True
-    ctx.notes["generator"] = {"shapes": len(shs), "rotations": len(lines)}
+    ctx.notes["generator"] = {"shapes": len(shs), "rotations": len(lines), "full_expression_shapes": len(full)}
     for s in shs[:: max(1, len(shs) // 6)][:6]:
         ctx.sample({"shape": shape_wire(s), "rotate": ids_of(s)[-1]})
     finish(ctx, [("rotation", bad)], [("rotate", diffs)], "rotation preserves in-order sequence and link consistency")
